@@ -1,0 +1,446 @@
+//! Verification-only seams. This module only exists with `--cfg mrecordlog_verif`.
+//!
+//! It gives an external harness control over every source of nondeterminism of the crate
+//! (file system, clock, hash map iteration order) and a view of what reaches the file system
+//! below the `BufWriter`. All state is thread-local, so that independent explorations can run
+//! on several threads of one process.
+use std::cell::{Cell, RefCell};
+use std::hash::{BuildHasher, Hasher};
+use std::io;
+use std::time::Duration;
+
+pub use crate::frame::{FrameReader, FrameWriter, ReadFrameError};
+pub use crate::recordlog::{RecordReader, RecordWriter};
+
+pub const FILE_NUM_BYTES: usize = crate::rolling::VERIF_FILE_NUM_BYTES;
+pub const FRAME_HEADER_LEN: usize = crate::frame::HEADER_LEN;
+
+/// Something the crate did to the file system (or, for `BlockWrite`, handed to the rolling
+/// writer). Events are recorded in program order.
+#[derive(Debug, Clone, PartialEq, Eq)]
+pub enum Event {
+    ReadDir,
+    Open {
+        name: String,
+        create_new: bool,
+        write: bool,
+        is_dir: bool,
+    },
+    SetLen {
+        name: String,
+        len: u64,
+    },
+    /// `data` reached the OS at `offset` of file `name`.
+    Write {
+        name: String,
+        offset: u64,
+        data: Vec<u8>,
+    },
+    Read {
+        name: String,
+        offset: u64,
+        len: usize,
+    },
+    SyncData {
+        name: String,
+        is_dir: bool,
+    },
+    Unlink {
+        name: String,
+    },
+    /// A frame (or end-of-block padding when `len < FRAME_HEADER_LEN`) was handed to the
+    /// rolling writer: it starts at `offset` of WAL file `file_number`.
+    BlockWrite {
+        file_number: u64,
+        offset: usize,
+        len: usize,
+        head: [u8; 7],
+    },
+}
+
+#[derive(Debug, Clone, Copy, PartialEq, Eq)]
+pub enum CallKind {
+    ReadDir = 0,
+    Open = 1,
+    Read = 2,
+    Write = 3,
+    Seek = 4,
+    SetLen = 5,
+    Sync = 6,
+    Unlink = 7,
+}
+pub const NUM_CALL_KINDS: usize = 8;
+
+/// Fail the `nth` (0-based) call of kind `kind` (or of any kind if `None`), once or from then on.
+#[derive(Debug, Clone, Copy)]
+pub struct Fault {
+    pub kind: Option<CallKind>,
+    pub nth: u64,
+    pub forever: bool,
+    pub error: io::ErrorKind,
+}
+
+/// Panic payload used when the tick budget is exhausted.
+#[derive(Debug)]
+pub struct Livelock;
+
+thread_local! {
+    static TRACE: RefCell<Option<Vec<Event>>> = const { RefCell::new(None) };
+    static CLOCK_NS: Cell<u64> = const { Cell::new(0) };
+    static HASH_SEED: Cell<u64> = const { Cell::new(0) };
+    static FAULT: Cell<Option<Fault>> = const { Cell::new(None) };
+    static COUNTS: Cell<[u64; NUM_CALL_KINDS]> = const { Cell::new([0; NUM_CALL_KINDS]) };
+    static TOTAL_CALLS: Cell<u64> = const { Cell::new(0) };
+    static FAULTS_FIRED: Cell<u64> = const { Cell::new(0) };
+    static TICKS: Cell<u64> = const { Cell::new(0) };
+    static TICK_BUDGET: Cell<u64> = const { Cell::new(u64::MAX) };
+}
+
+pub fn trace_start() {
+    TRACE.with(|t| *t.borrow_mut() = Some(Vec::new()));
+}
+pub fn trace_stop() {
+    TRACE.with(|t| *t.borrow_mut() = None);
+}
+pub fn trace_take() -> Vec<Event> {
+    TRACE.with(|t| match t.borrow_mut().as_mut() {
+        Some(v) => std::mem::take(v),
+        None => Vec::new(),
+    })
+}
+pub fn trace_len() -> usize {
+    TRACE.with(|t| t.borrow().as_ref().map(|v| v.len()).unwrap_or(0))
+}
+fn emit(make: impl FnOnce() -> Event) {
+    TRACE.with(|t| {
+        if let Some(v) = t.borrow_mut().as_mut() {
+            v.push(make())
+        }
+    });
+}
+
+pub fn set_clock_ns(ns: u64) {
+    CLOCK_NS.with(|c| c.set(ns));
+}
+pub fn clock_ns() -> u64 {
+    CLOCK_NS.with(|c| c.get())
+}
+pub fn set_hash_seed(seed: u64) {
+    HASH_SEED.with(|c| c.set(seed));
+}
+
+pub fn set_fault(fault: Option<Fault>) {
+    FAULT.with(|f| f.set(fault));
+}
+pub fn faults_fired() -> u64 {
+    FAULTS_FIRED.with(|c| c.get())
+}
+/// Reset the call counters, the fired-fault counter and the tick counter.
+pub fn reset_counters() {
+    COUNTS.with(|c| c.set([0; NUM_CALL_KINDS]));
+    TOTAL_CALLS.with(|c| c.set(0));
+    FAULTS_FIRED.with(|c| c.set(0));
+    TICKS.with(|c| c.set(0));
+}
+pub fn call_counts() -> [u64; NUM_CALL_KINDS] {
+    COUNTS.with(|c| c.get())
+}
+pub fn ticks() -> u64 {
+    TICKS.with(|c| c.get())
+}
+pub fn set_tick_budget(budget: u64) {
+    TICK_BUDGET.with(|c| c.set(budget));
+}
+
+/// Counts one step of a loop that must make progress. Unwinds with a [`Livelock`] payload
+/// once the budget is exhausted.
+pub fn tick() {
+    let ticks = TICKS.with(|c| {
+        let v = c.get() + 1;
+        c.set(v);
+        v
+    });
+    if ticks > TICK_BUDGET.with(|c| c.get()) {
+        // Drop handlers running during the unwinding must not panic again.
+        set_tick_budget(u64::MAX);
+        std::panic::panic_any(Livelock);
+    }
+}
+
+fn gate(kind: CallKind) -> io::Result<()> {
+    tick();
+    let idx_of_kind = COUNTS.with(|c| {
+        let mut counts = c.get();
+        let idx = counts[kind as usize];
+        counts[kind as usize] += 1;
+        c.set(counts);
+        idx
+    });
+    let idx_total = TOTAL_CALLS.with(|c| {
+        let v = c.get();
+        c.set(v + 1);
+        v
+    });
+    if let Some(fault) = FAULT.with(|f| f.get()) {
+        let idx = match fault.kind {
+            Some(fault_kind) if fault_kind == kind => idx_of_kind,
+            Some(_) => return Ok(()),
+            None => idx_total,
+        };
+        if idx == fault.nth || (fault.forever && idx > fault.nth) {
+            FAULTS_FIRED.with(|c| c.set(c.get() + 1));
+            return Err(io::Error::new(fault.error, "injected fault"));
+        }
+    }
+    Ok(())
+}
+
+pub fn on_block_write(file_number: u64, offset: usize, buf: &[u8]) {
+    emit(|| {
+        let mut head = [0u8; 7];
+        let n = buf.len().min(7);
+        head[..n].copy_from_slice(&buf[..n]);
+        Event::BlockWrite {
+            file_number,
+            offset,
+            len: buf.len(),
+            head,
+        }
+    });
+}
+
+/// Virtual time: only moves when the harness says so.
+#[derive(Copy, Clone, Debug, PartialEq, Eq, PartialOrd, Ord)]
+pub struct Instant(u64);
+
+impl Instant {
+    pub fn now() -> Instant {
+        Instant(clock_ns())
+    }
+}
+
+impl std::ops::Add<Duration> for Instant {
+    type Output = Instant;
+    fn add(self, duration: Duration) -> Instant {
+        let nanos = duration.as_nanos().min(u64::MAX as u128) as u64;
+        Instant(self.0.saturating_add(nanos))
+    }
+}
+
+/// Hash map whose iteration order is a function of the thread-local seed.
+pub type HashMap<K, V> = std::collections::HashMap<K, V, SeededState>;
+
+#[derive(Clone)]
+pub struct SeededState(u64);
+
+impl Default for SeededState {
+    fn default() -> Self {
+        SeededState(HASH_SEED.with(|c| c.get()))
+    }
+}
+
+pub struct SeededHasher(u64);
+
+impl Hasher for SeededHasher {
+    fn finish(&self) -> u64 {
+        let mut x = self.0;
+        x ^= x >> 33;
+        x = x.wrapping_mul(0xff51afd7ed558ccd);
+        x ^= x >> 33;
+        x = x.wrapping_mul(0xc4ceb9fe1a85ec53);
+        x ^= x >> 33;
+        x
+    }
+    fn write(&mut self, bytes: &[u8]) {
+        for byte in bytes {
+            self.0 = (self.0 ^ *byte as u64).wrapping_mul(0x100000001b3);
+        }
+    }
+}
+
+impl BuildHasher for SeededState {
+    type Hasher = SeededHasher;
+    fn build_hasher(&self) -> SeededHasher {
+        SeededHasher(self.0 ^ 0xcbf29ce484222325)
+    }
+}
+
+/// Drop-in replacements for `std::fs::{File, OpenOptions}`: same calls on the real file
+/// system, plus event recording, call counting and fault injection.
+pub mod fs {
+    use std::io::{self, Read, Seek, SeekFrom, Write};
+    use std::path::Path;
+
+    use super::{emit, gate, CallKind, Event};
+
+    fn name(path: &Path) -> String {
+        path.file_name()
+            .map(|name| name.to_string_lossy().into_owned())
+            .unwrap_or_default()
+    }
+
+    pub fn on_read_dir(_path: &Path) -> io::Result<()> {
+        gate(CallKind::ReadDir)?;
+        emit(|| Event::ReadDir);
+        Ok(())
+    }
+
+    pub fn on_remove_file(path: &Path) -> io::Result<()> {
+        gate(CallKind::Unlink)?;
+        emit(|| Event::Unlink { name: name(path) });
+        Ok(())
+    }
+
+    pub struct File {
+        inner: std::fs::File,
+        name: String,
+        is_dir: bool,
+        pos: u64,
+    }
+
+    impl std::ops::Deref for File {
+        type Target = std::fs::File;
+        fn deref(&self) -> &std::fs::File {
+            &self.inner
+        }
+    }
+
+    impl File {
+        pub fn set_len(&self, len: u64) -> io::Result<()> {
+            gate(CallKind::SetLen)?;
+            self.inner.set_len(len)?;
+            emit(|| Event::SetLen {
+                name: self.name.clone(),
+                len,
+            });
+            Ok(())
+        }
+
+        pub fn sync_data(&self) -> io::Result<()> {
+            gate(CallKind::Sync)?;
+            self.inner.sync_data()?;
+            emit(|| Event::SyncData {
+                name: self.name.clone(),
+                is_dir: self.is_dir,
+            });
+            Ok(())
+        }
+
+        pub fn sync_all(&self) -> io::Result<()> {
+            gate(CallKind::Sync)?;
+            self.inner.sync_all()?;
+            emit(|| Event::SyncData {
+                name: self.name.clone(),
+                is_dir: self.is_dir,
+            });
+            Ok(())
+        }
+    }
+
+    impl Read for File {
+        fn read(&mut self, buf: &mut [u8]) -> io::Result<usize> {
+            gate(CallKind::Read)?;
+            let num_bytes = self.inner.read(buf)?;
+            emit(|| Event::Read {
+                name: self.name.clone(),
+                offset: self.pos,
+                len: num_bytes,
+            });
+            self.pos += num_bytes as u64;
+            Ok(num_bytes)
+        }
+    }
+
+    impl Write for File {
+        fn write(&mut self, buf: &[u8]) -> io::Result<usize> {
+            gate(CallKind::Write)?;
+            let num_bytes = self.inner.write(buf)?;
+            emit(|| Event::Write {
+                name: self.name.clone(),
+                offset: self.pos,
+                data: buf[..num_bytes].to_vec(),
+            });
+            self.pos += num_bytes as u64;
+            Ok(num_bytes)
+        }
+
+        fn flush(&mut self) -> io::Result<()> {
+            self.inner.flush()
+        }
+    }
+
+    impl Seek for File {
+        fn seek(&mut self, seek_from: SeekFrom) -> io::Result<u64> {
+            gate(CallKind::Seek)?;
+            let pos = self.inner.seek(seek_from)?;
+            self.pos = pos;
+            Ok(pos)
+        }
+    }
+
+    #[derive(Clone, Default)]
+    pub struct OpenOptions {
+        read: bool,
+        write: bool,
+        create_new: bool,
+        create: bool,
+        truncate: bool,
+        append: bool,
+    }
+
+    impl OpenOptions {
+        #[allow(clippy::new_without_default)]
+        pub fn new() -> Self {
+            Self::default()
+        }
+        pub fn read(&mut self, value: bool) -> &mut Self {
+            self.read = value;
+            self
+        }
+        pub fn write(&mut self, value: bool) -> &mut Self {
+            self.write = value;
+            self
+        }
+        pub fn create_new(&mut self, value: bool) -> &mut Self {
+            self.create_new = value;
+            self
+        }
+        pub fn create(&mut self, value: bool) -> &mut Self {
+            self.create = value;
+            self
+        }
+        pub fn truncate(&mut self, value: bool) -> &mut Self {
+            self.truncate = value;
+            self
+        }
+        pub fn append(&mut self, value: bool) -> &mut Self {
+            self.append = value;
+            self
+        }
+        pub fn open<P: AsRef<Path>>(&self, path: P) -> io::Result<File> {
+            let path = path.as_ref();
+            gate(CallKind::Open)?;
+            let inner = std::fs::OpenOptions::new()
+                .read(self.read)
+                .write(self.write)
+                .create_new(self.create_new)
+                .create(self.create)
+                .truncate(self.truncate)
+                .append(self.append)
+                .open(path)?;
+            let is_dir = inner.metadata().map(|meta| meta.is_dir()).unwrap_or(false);
+            emit(|| Event::Open {
+                name: name(path),
+                create_new: self.create_new || self.create,
+                write: self.write,
+                is_dir,
+            });
+            Ok(File {
+                inner,
+                name: name(path),
+                is_dir,
+                pos: 0,
+            })
+        }
+    }
+}
